@@ -413,6 +413,20 @@ var ruleA11 = &Rule{
 				continue
 			}
 			name := fi.Name()
+			// the key may be derived by a helper of the package: analyse the helper, and require that every value parameter of the
+			// marking function is handed to it
+			markFi := fi
+			var helperArgs []ast.Expr
+			if len(mark.Args) == 1 {
+				if hc, ok := ast.Unparen(mark.Args[0]).(*ast.CallExpr); ok {
+					if hf, ok := calleeObj(info, hc).(*types.Func); ok && hf.Pkg() == fi.Pkg.Types {
+						if hd := c.declOf(fi.Pkg, hf); hd != nil && hd.Body != nil {
+							fi = &FuncInfo{Pkg: fi.Pkg, Decl: hd}
+							helperArgs = hc.Args
+						}
+					}
+				}
+			}
 			// the local array
 			var arr types.Object
 			var arrLen int64
@@ -505,6 +519,30 @@ var ruleA11 = &Rule{
 							feeds = true
 						}
 					}
+					keyName := nm.Name
+					if helperArgs != nil && feeds {
+						// which parameter of the marking function is bound to this helper parameter?
+						feeds = false
+						pi := 0
+						for _, hf := range fi.Decl.Type.Params.List {
+							for _, hn := range hf.Names {
+								if hn == nm && pi < len(helperArgs) {
+									if id, ok := ast.Unparen(helperArgs[pi]).(*ast.Ident); ok {
+										for _, mf := range markFi.Decl.Type.Params.List {
+											for _, mn := range mf.Names {
+												if info.Uses[id] == info.Defs[mn] {
+													feeds = true
+													keyName = mn.Name
+												}
+											}
+										}
+									}
+								}
+								pi++
+							}
+						}
+					}
+					_ = keyName
 					s2, m2 := OK, ""
 					if !feeds {
 						s2, m2 = Violation, fmt.Sprintf("parameter %s does not reach the cache key: series are announced once per cache lifetime regardless of %s", nm.Name, nm.Name)
